@@ -693,6 +693,8 @@ def suite_includes(exe, tier, seed):
                   dict(reachable=["a.circom", "b.circom"], analyzed={"A"}, findings_in=["a.circom"])))
     cases.append(("both-named", {"a.circom": A(["b.circom"]) + tpl("A") + main_a, "b.circom": PRAGMA + tpl("B", True)}, None, ["a.circom", "b.circom"],
                   dict(reachable=["a.circom", "b.circom"], analyzed={"A", "B"}, findings_in=["a.circom", "b.circom"], findings_min=1)))
+    cases.append(("both-named-included-one-first", {"a.circom": A(["b.circom"]) + tpl("A") + main_a, "b.circom": PRAGMA + tpl("B", True)}, None, ["b.circom", "a.circom"],
+                  dict(reachable=["a.circom", "b.circom"], analyzed={"A", "B"}, findings_in=["a.circom", "b.circom"], findings_min=1)))
     cases.append(("named-twice-and-included", {"a.circom": A(["b.circom"]) + tpl("A") + main_a, "b.circom": PRAGMA + tpl("B", True)}, None, ["b.circom", "a.circom", "./b.circom"],
                   dict(reachable=["a.circom", "b.circom"], analyzed={"A", "B"}, findings_in=["a.circom", "b.circom"], findings_min=1)))
     cases.append(("unresolved", {"a.circom": PRAGMA + "\n" + 'include "nowhere.circom";\n' + tpl("A") + main_a}, None, ["a.circom"],
@@ -744,7 +746,7 @@ def suite_includes(exe, tier, seed):
     return {"unit": "e2e-includes", "evaluations": evals, "distinct_nontrivial": nontrivial, "exhaustive": False,
             "rule": "the real CLI under strace on small multi-file projects: it terminates with exit 0/1; every reachable file is opened exactly once whatever paths or spellings lead to it; a shadowed file is not opened; only templates of the files named on the command line are analyzed and only those files carry findings; an unresolvable include is an error located at the include statement",
             "strace_available": strace_seen,
-            "bound": "14 include graphs: chain, diamond, cycle, self-include, ./ and ../ spellings, resolution relative to the including file, -L library, relative-before-library, a library file that is also named, a library file reached by two routes, symlink, both files named, a file named twice and included, unresolved include",
+            "bound": "15 include graphs: chain, diamond, cycle, self-include, ./ and ../ spellings, resolution relative to the including file, -L library, relative-before-library, a library file that is also named, a library file reached by two routes, symlink, both files named (either order), a file named twice and included, unresolved include",
             "samples": samples, "violations": viol}
 
 
@@ -1586,6 +1588,19 @@ DET_DEFS = {
   y <== m.out + t;
 }""",
 }
+DET_DEFS["Fib"] = """template Fib(n) {
+  signal input in;
+  signal output out;
+  var a = in;
+  var b = 1;
+  var c = 2;
+  for (var i = 0; i < n; i++) {
+    a = a + b;
+    b = b + a + c;
+    c = c + b;
+  }
+  out <== a;
+}"""
 DET_EXTRA = {
     "Unrelated": """template Unrelated(p) {
   signal input u;
@@ -1662,7 +1677,7 @@ def suite_determinism(exe, tier, seed):
     def diff(a, b):
         return {"only_first": sorted(map(str, (a - b).elements()))[:4], "only_second": sorted(map(str, (b - a).elements()))[:4]}
     try:
-        base_a, base_b = ["fdead", "fhelper", "Num2Bits", "Leaf"], ["Mid", "Top"]
+        base_a, base_b = ["fdead", "fhelper", "Num2Bits", "Leaf", "Fib"], ["Mid", "Top"]
         where = det_project(d, base_a, base_b)
         ref, e = det_findings(exe, d, ["a.circom", "b.circom"], where)
         evals += 1
@@ -1670,8 +1685,20 @@ def suite_determinism(exe, tier, seed):
             add("run", {}, "reference run: " + e)
             raise StopIteration
         samples.append({"run": "reference", "findings": sum(ref.values()), "kinds": sorted({k[0] for k in ref})})
-        if sum(ref.values()) < 10:
-            raise RuntimeError("fixture produces too few findings to be a meaningful reference")
+        # the findings of a file's definitions do not depend on which other files are named with it: a.circom on its own
+        alone, e = det_findings(exe, d, ["a.circom"], where)
+        evals += 1; nontrivial += 1
+        if alone is None:
+            add("run", {"files": ["a.circom"]}, e)
+        else:
+            in_a = {n for n, (f, _, _) in where.items() if f == "a.circom"}
+            joint_a = Counter({k: v for k, v in ref.items() if any(p and p[0] in in_a for p in k[3])})
+            alone_a = Counter({k: v for k, v in alone.items() if any(p and p[0] in in_a for p in k[3])})
+            if joint_a != alone_a:
+                add("other-files", {"difference": diff(alone_a, joint_a)},
+                    f"the findings of the definitions of a.circom differ between `a.circom` alone and `a.circom b.circom` (b.circom includes a.circom): {diff(alone_a, joint_a)}")
+            if sum(alone_a.values()) < 5:
+                raise RuntimeError("fixture produces too few findings to be a meaningful reference")
         # (1) the same command again: every process seeds its hash maps afresh
         for k in range(4 if tier == "quick" else 25):
             got, e = det_findings(exe, d, ["a.circom", "b.circom"], where)
@@ -1710,9 +1737,9 @@ def suite_determinism(exe, tier, seed):
                     add("unrelated-added", {"extra": extra_a + extra_b, "difference": diff(ref, mine)},
                         f"adding the unrelated definitions {extra_a + extra_b} changed the findings of the others: {diff(ref, mine)}")
         w4 = det_project(d, base_a, base_b, drop=("fhelper",))   # referenced by Mid: its removal may change Mid's findings only
-        w5 = det_project(d, ["fdead", "fhelper", "Num2Bits", "Leaf", "Unrelated"], base_b, extra=["Unrelated"])
+        w5 = det_project(d, base_a + ["Unrelated"], base_b, extra=["Unrelated"])
         a5, e = det_findings(exe, d, ["a.circom", "b.circom"], w5)
-        w6 = det_project(d, ["fdead", "fhelper", "Num2Bits", "Leaf"], base_b)
+        w6 = det_project(d, base_a, base_b)
         a6, e2 = det_findings(exe, d, ["a.circom", "b.circom"], w6)
         evals += 2; nontrivial += 1
         if a5 is not None and a6 is not None:
@@ -1724,7 +1751,7 @@ def suite_determinism(exe, tier, seed):
     finally:
         shutil.rmtree(d, ignore_errors=True)
     return {"unit": "e2e-determinism", "evaluations": evals, "distinct_nontrivial": nontrivial, "exhaustive": False,
-            "rule": "the real CLI (-l info, SARIF) on a two-file project with six definitions that call and instantiate each other and carry findings of a dozen kinds: the multiset of findings (rule id, level, message, primary and related regions taken relative to the definition they lie in) is the same when the command is repeated (fresh hasher seeds per process), when the definitions of each file are permuted, when the files are named in the other order, when unrelated definitions are added, and when an unreferenced definition is removed",
+            "rule": "the real CLI (-l info, SARIF) on a two-file project with seven definitions that call and instantiate each other (one holds a loop over mutually dependent variables) and carry findings of a dozen kinds: the multiset of findings (rule id, level, message, primary and related regions taken relative to the definition they lie in) is the same when the command is repeated (fresh hasher seeds per process), when the definitions of each file are permuted, when the files are named in the other order, when unrelated definitions are added, and when an unreferenced definition is removed",
             "bound": ("5" if tier == "quick" else "26") + " runs of the same command; " + ("3" if tier == "quick" else "13") + " permutations x 2 file orders; 3 additions and 1 removal of unrelated definitions",
             "samples": samples, "violations": viol}
 
